@@ -548,11 +548,15 @@ func (r *c07Runner) roleType(input []byte) {
 				continue
 			}
 			label := fmt.Sprintf("type[root=%d,optkeys=%v]", i, opt)
-			r.sources = map[string][]byte{"root": []byte(rootText), "type": input}
+			rootName := "root"
+			if i == 2 && opt {
+				rootName = "" // a schema whose file has no name (the inheriting root, so that allOf errors arise in it)
+			}
+			r.sources = map[string][]byte{rootName: []byte(rootText), "type": input}
 			r.helperSources()
 			var root, typ *njs.Schema
 			if !r.guard(label+".New", func() {
-				root = njs.New("root", rootText, c07Opts(opt)...)
+				root = njs.New(rootName, rootText, c07Opts(opt)...)
 				typ = njs.New("type", input, c07Opts(opt)...)
 			}) {
 				continue
